@@ -274,6 +274,8 @@ def judge_module_rule(ev: Event) -> None:
     if "C03" in HUB.judges and ev.outcome == "fail" and wellformed and names_exist and regex_ok:
         _judge_report_universal(ev, mods, imps)
     if not ok_domain:
+        if why == "anything-several-subjects" and ev.outcome in ("pass", "fail"):
+            _judge_anything_batch(ev, mods, imps)
         return
     res = rrule.decide(mods, imps, cfg)
     if res is None:
@@ -321,6 +323,43 @@ def judge_module_rule(ev: Event) -> None:
                     "neg_expected": sorted(map(repr, exp_neg)),
                 },
             )
+
+
+def _judge_anything_batch(ev: Event, mods, imps) -> None:
+    """'anything' with several subjects: the documentation is ambiguous about imports BETWEEN the
+    subjects (ambiguity ii), but under every reading an import that connects a subject with a module
+    outside ALL subjects violates the rule and has to be reported.  Sound lower bound for C01/C03."""
+    from .refmodel.names import pairwise_unrelated
+
+    cfg = ev.cfg
+    subs = [tuple(s) for s in cfg["subs"]]
+    if cfg["verb"] != "should_not" or any(k not in ("named", "sub") for k, _ in subs):
+        return
+    names = [n for _, n in subs]
+    if len(set(names)) != len(names) or not pairwise_unrelated(names) or any(n not in mods for n in names):
+        return
+    union = set()
+    for f in subs:
+        union |= rrule.sel(f, mods) | {f[1]}  # the parent of 'sub modules of X' is left out of the bound (ambiguity i)
+    req = set()
+    for f in subs:
+        ss = rrule.sel(f, mods)
+        for a, b in imps:
+            if cfg["dir"] == "import" and a in ss and b not in union:
+                req.add((a, b))
+            if cfg["dir"] == "be" and b in ss and a not in union:
+                req.add((a, b))
+    HUB.acc.count("anything_batch_judged")
+    w = {"cfg": cfg, "mods": sorted(mods), "imps": sorted(imps), "message": ev.message, "required_lines": sorted(req)}
+    if req and ev.outcome == "pass" and "C01" in HUB.judges:
+        HUB.violation("C01", f"verdict:should_not/{cfg['dir']}/anything-batch:false-pass", "rule over several subjects passed although a subject imports / is imported by a module outside all subjects", w)
+    if ev.outcome == "fail" and "C03" in HUB.judges:
+        try:
+            pos, _neg = msgparse.parse_module_message(ev.message)
+        except msgparse.Unparseable:
+            return
+        if req - pos:
+            HUB.violation("C03", f"missing-line:should_not/{cfg['dir']}/anything-batch", "report of a rule over several subjects misses imports that violate it under every reading", dict(w, missing=sorted(req - pos)))
 
 
 def _bucket(cfg, positive: bool) -> str:
